@@ -87,6 +87,9 @@ func (s *Server) DidSave(ctx context.Context, params *lsp.DidSaveTextDocumentPar
 
 func (s *Server) DidChange(ctx context.Context, params *lsp.DidChangeTextDocumentParams) error {
 	filename := params.TextDocument.URI.Filename()
+	if len(params.ContentChanges) == 0 {
+		return nil // nothing has changed
+	}
 	content := params.ContentChanges[0].Text
 	s.docs[filename] = &document{
 		version: uint32(params.TextDocument.Version),
@@ -109,10 +112,13 @@ func (s *Server) typecheck(ctx context.Context, uri lsp.DocumentURI, version uin
 	_, err := compiler.Compile(ctx, uri.Filename(), content, compiler.Params{CheckOnly: true, Verbose: true})
 	for _, p := range status.FromError(err) {
 		rng, _, _ := strings.Cut(content[p.Origin.Offset:p.Origin.EndOffset], "\n")
+		// Note: some errors come without a line number.
+		line := strings.Count(content[:p.Origin.Offset], "\n")
+		start := utf16Column(content, p.Origin.Offset)
 		res = append(res, lsp.Diagnostic{
 			Range: lsp.Range{
-				Start: lsp.Position{Line: uint32(p.Origin.Line - 1), Character: uint32(p.Origin.Column - 1)},
-				End:   lsp.Position{Line: uint32(p.Origin.Line - 1), Character: uint32(p.Origin.Column - 1 + len(rng))},
+				Start: lsp.Position{Line: uint32(line), Character: uint32(start)},
+				End:   lsp.Position{Line: uint32(line), Character: uint32(start + utf16Len(rng))},
 			},
 			Severity: lsp.DiagnosticSeverityError,
 			Message:  p.Msg,
@@ -210,16 +216,33 @@ func (id id) Kind() int {
 }
 
 func (id id) Location(uri lsp.DocumentURI) lsp.Location {
-	line, col := id.Node.LineColumn()
-
-	// Note: this function does not handle Unicode correctly
+	line, _ := id.Node.LineColumn()
+	start := utf16Column(id.Node.Tree().Text(), id.Node.Offset())
 	return lsp.Location{
 		URI: uri,
 		Range: lsp.Range{
-			Start: lsp.Position{Line: uint32(line - 1), Character: uint32(col - 1)},
-			End:   lsp.Position{Line: uint32(line - 1), Character: uint32(col - 1 + len(id.Node.Text()))},
+			Start: lsp.Position{Line: uint32(line - 1), Character: uint32(start)},
+			End:   lsp.Position{Line: uint32(line - 1), Character: uint32(start + utf16Len(id.Node.Text()))},
 		},
 	}
+}
+
+// utf16Len returns the length of s in UTF-16 code units.
+func utf16Len(s string) int {
+	var ret int
+	for _, r := range s {
+		ret++
+		if r > 0xffff {
+			ret++
+		}
+	}
+	return ret
+}
+
+// utf16Column returns the 0-based column of a byte offset in UTF-16 code units.
+func utf16Column(content string, offset int) int {
+	start := strings.LastIndexByte(content[:offset], '\n') + 1
+	return utf16Len(content[start:offset])
 }
 
 func collectIDs(ctx context.Context, filename, content string) []id {
